@@ -70,7 +70,7 @@ def obligations(tier):
         ob_regex('RE_CHANNEL_DEFINITION', _spec_decl, 'name_description_units'),
         ob_regex('RE_DATE_STYLE_A', _spec_date_a, 'ddMonyy'),
         ob_regex('RE_DATE_STYLE_B', _spec_date_b, 'dd-Mon-yy'),
-        Ob('dat_parse_and_reject', 'ch', '4 declaration orders, 4 header subsets, 0..2 rows, blank/tab, 2 date spellings (year with or without a leading zero), 6 years x 3 months (4 thorough), LF or CRLF line ends with or without a final one; the same file object probed and parsed repeatedly; corruption none/missing value/extra value/undeclared name/garbage declaration/a value that is not a number/a date that is not a date (rejected with the DAT error, and the probe answers no)',
+        Ob('dat_parse_and_reject', 'ch', '4 declaration orders, 4 header subsets, 0..2 rows, blank/tab, 2 date spellings (year with or without a leading zero), 6 years x 3 months (4 thorough), LF or CRLF line ends with or without a final one; process time zone UTC / +5:30 / -8; the same file object probed and parsed repeatedly; corruption none/missing value/extra value/undeclared name/garbage declaration/a value that is not a number/a date that is not a date (rejected with the DAT error, and the probe answers no)',
            ['DAT.DAT_parser._parse_file/parse_file/can_parse_file', '_unit_unix_time_to_datetime_datetime', '_unit_ddmmyy_to_datetime_date', '_unit_hhmmyy_to_datetime_time',
             '_ret_conversion_function', '_numpy_dtype', 'common.LogPass.FrameArray/FrameChannel'],
            harness='C14_dat', func='dat_files_q' if q else 'dat_files', timeout=280 if q else 1500, parts=28),
